@@ -41,7 +41,7 @@ def generate(ctx, cfg, simulate=None, depth=None, timeout=900, workers=None, lem
     """Run TLC on MC_PolicyLang with `cfg`; returns (prelude, programs, TlcResult).
     Exhaustive runs are guarded against vacuity (both actions taken, lemma count)."""
     r = ctx.tlc(MODULE, cfg, simulate=simulate, depth=depth, timeout=timeout,
-                workers=(1 if simulate else workers), cache=True, subst=subst, coverage=False,
+                workers=(4 if simulate else workers), cache=True, subst=subst, coverage=False,
                 tag=cfg.replace(".cfg", "") + ("-" + "-".join(subst.values()) if subst else ""))
     pre = prelude_of(r)
     progs = dedupe(r.replays)
@@ -89,11 +89,11 @@ def require_ops(ctx, programs, ops, what):
     ctx.cov.setdefault("constructs_generated", {})[what] = sorted(seen)
 
 
-def replay(ctx, vh, prop, pre, programs, tag, batch=200, timeout=1200):
+def replay(ctx, vh, prop, pre, programs, tag, batch=200, timeout=1200, parens="full"):
     """Run programs through the engine; returns the per-program results (failing results carry a
     self-contained `_in` with the prelude so that --replay can re-run them)."""
     items = [{"prelude": pre}] + programs
-    res = ctx.run_engine(vh, "run", items, opts={"prop": prop, "batch": batch}, tag=tag, timeout=timeout)
+    res = ctx.run_engine(vh, "run", items, opts={"prop": prop, "batch": batch, "parens": parens}, tag=tag, timeout=timeout)
     out = []
     for r in res:
         i = r.get("i", -1)
@@ -209,7 +209,7 @@ def selftest_log(ctx, vh, prop, pre, programs):
 
 def run_pinned(ctx, vh, prop):
     """Pinned regressions (replays/pinned/<prop>-*.json): programs that once exposed a defect."""
-    d = os.path.join(verif.REPLAYS, "pinned")
+    d = verif.PINNED
     n = 0
     for f in sorted(os.listdir(d)) if os.path.isdir(d) else []:
         if not (f.startswith(prop + "-") and f.endswith(".json")):
